@@ -41,6 +41,12 @@ class Hist:
                                 self.fn_kind[m[k][a]] = ("prop%d" % which, key)
 
     def func(self, f):
+        same = self.case.get("sameBare", {}).get(str(f))
+        if f not in self.fn and same is not None:
+            # another decoration of the very same undecorated function object
+            self.func(same)
+            self.fn[f] = self.bare[same]
+            self.bare[f] = self.bare[same]
         if f not in self.fn:
             kind, key = self.fn_kind.get(f, ("func", "m"))
             params = {"func": "self", "static": "", "classm": "cls", "prop0": "self", "prop1": "self, value", "prop2": "self"}[kind]
@@ -52,6 +58,30 @@ class Hist:
             self.fn[f] = fn
             self.bare[f] = fn
         return self.fn[f]
+
+    def bound_in(self, f):
+        """(class, key, raw attribute) if function id f is the member of an already created class"""
+        for k, cls in self.cls.items():
+            for key, m in self.ns_members.get(k, []):
+                kind = next(iter(m)) if isinstance(m, dict) else None
+                if kind in ("func", "static", "classm") and m[kind]["f"] == f:
+                    return cls, key, kind
+        return None
+
+    def decorate(self, f, deco):
+        """apply a contract decorator to function id f: before its class exists to the function object, afterwards
+        (a LATE decoration, as a plug-in or a class decorator would do) to the class attribute, re-binding the result"""
+        where = self.bound_in(f)
+        if where is None:
+            self.fn[f] = deco(self.func(f))
+            return
+        cls, key, kind = where
+        raw = inspect.getattr_static(cls, key)
+        target = raw.__func__ if kind in ("static", "classm") else raw
+        new = deco(target)
+        if new is not target:
+            setattr(cls, key, staticmethod(new) if kind == "static" else classmethod(new) if kind == "classm" else new)
+        self.fn[f] = new
 
     def cond(self, c):
         truth = self.truth
@@ -106,6 +136,7 @@ class Hist:
     def run(self):
         steps = []
         self.ns_keys = {}
+        self.ns_members = {}
         orig_hook = getattr(_mc, "_register_for_hypothesis", None)
         k_of = {}
 
@@ -121,14 +152,14 @@ class Hist:
                 try:
                     o = op["op"]
                     if o == "pre":
-                        self.fn[op["f"]] = icontract.require(self.cond(op["c"]), description="c%d" % op["c"])(self.func(op["f"]))
+                        self.decorate(op["f"], icontract.require(self.cond(op["c"]), description="c%d" % op["c"]))
                     elif o == "post":
-                        self.fn[op["f"]] = icontract.ensure(self.cond(op["c"]), description="c%d" % op["c"])(self.func(op["f"]))
+                        self.decorate(op["f"], icontract.ensure(self.cond(op["c"]), description="c%d" % op["c"]))
                     elif o == "snap":
                         d = icontract.snapshot(lambda: None, name=self.snap_names[op["c"]])
                         if d._snapshot is not None:
                             d._snapshot._sid = op["c"]
-                        self.fn[op["f"]] = d(self.func(op["f"]))
+                        self.decorate(op["f"], d)
                     elif o == "wrap":
                         self.fn[op["f"]] = _foreign(self.func(op["f"]))
                     elif o == "inv":
@@ -168,6 +199,7 @@ class Hist:
                                 cls = type("K%d" % op["k"], bases, ns)
                             self.cls[op["k"]] = cls
                             self.ns_keys[op["k"]] = [key for key, _m in op["ns"]]
+                            self.ns_members[op["k"]] = list(op["ns"])
                 except common.Infra:
                     raise
                 except TypeError as e:
@@ -178,6 +210,8 @@ class Hist:
                         err = ["TypeError", "mro"]
                     else:
                         err = ["TypeError", msg[:60]]
+                except AssertionError as e:
+                    err = ["AssertionError", str(e)[:60]]
                 except ValueError as e:
                     msg = str(e)
                     if "conflicting snapshots" in msg:
